@@ -18,7 +18,7 @@ CHECKS = {
  "C08": ("proof, for every well-formed STR/STRx table (any offsets: shared, unsorted, interior; unreferenced entries; empty) and every request list of 7-bit strings, that the editor model succeeds, keeps every existing id's text, gives every requested string an id resolving to exactly it, appends only the not-yet-resolvable requests once each, yields a well-formed table, is idempotent, fails loudly on offset overflow, and that STR->STRx preserves the id->text map; model tied to both editors and the generator by a correspondence run with an independent offset reader",
          "§5 C08", "Lean 4 proof (induction on string data / request list) + hand model of the editors tied by differential correspondence"),
  "C09": ("proof about the allocator shared by the four slot tables, for every occupancy, batch and iteration order: slots handed out are in range, were empty, pairwise distinct, never the reserved Anywhere slot for index-less objects; carried free indices are kept; a call needing no new slot never fails; exhaustion and out-of-range indices fail loudly; WAV paths are requested once; configuration (ranges, reserved id, raise/skip) regenerated from the source and proved equal to the format's",
-         "§5 C09", "Lean 4 proof (state-machine invariant by induction over the request list) + ast translator of allocator configuration + differential correspondence with observed set order"),
+         "§5 C09", "Lean 4 proof (state-machine invariant by induction over the request list) + ast translator of allocator configuration + differential correspondence with observed set order + whole saves of edited maps read back by an independent reader"),
  "C13": ("proof over an alias model: every function body of the operation layers (948 read, 56 containing an in-place mutation) is abstracted by the translator into a small heap IR (allocate / shallow copy / alias / element / mutate) regenerated on every run; the kernel evaluates a type check on every body (decide +kernel) and a soundness theorem, proved once for all programs and all heaps, says that a body passing the check changes no container cell that existed before the call, along every execution order; partial: the reading of Python into the IR is trusted (rules listed in DESIGN.md) and is tied by a deep-snapshot harness over every public method of the editor / io / transcoder layers, alone and in composed sequences",
          "§5 C13", "Lean 4 proof (soundness of a flow-insensitive alias type system, by invariant over executions) + ast translator of mutation/alias structure + deep-snapshot differential run"),
  "C14": ("proof that the allocator's outcome is invariant under permutation of the batch (List.Perm): both fail or both succeed, same free list, same occupied set, same set of new slots; whole-save determinism modulo new-slot numbering is validated across interpreters with different hash seeds through an independent slot-renumbering-invariant digest (partial: the rewrite of references and string collection order are checked by that run, not proved)",
